@@ -11,9 +11,57 @@ use std::time::{Duration, Instant};
 fn scenarios_for(prop: &str, tier: Tier) -> Vec<Box<dyn Scenario>> {
     match prop {
         "C03" => vec![
-            Box::new(RegistryScenario { minors: vec![14, 17, 20], depth: tier.pick(6, 9) }),
-            Box::new(RegistryScenario { minors: vec![20, 18], depth: tier.pick(8, 12) }),
+            Box::new(RegistryScenario { minors: vec![14, 17, 20], depth: tier.pick(12, 18) }),
+            Box::new(RegistryScenario { minors: vec![20, 18], depth: tier.pick(12, 16) }),
         ],
+        "C04" => {
+            let mut v: Vec<Box<dyn Scenario>> = vec![
+                Box::new(EventsScenario { minors: [20, 20, 14, 20], depth: tier.pick(12, 18) }),
+                Box::new(EventsScenario { minors: [18, 19, 20, 14], depth: tier.pick(12, 18) }),
+                Box::new(EventsScenario { minors: [17, 20, 18, 20], depth: tier.pick(11, 16) }),
+            ];
+            if tier == Tier::Thorough {
+                v.push(Box::new(EventsScenario { minors: [14, 14, 20, 17], depth: 14 }));
+                v.push(Box::new(EventsScenario { minors: [20, 18, 18, 20], depth: 14 }));
+            }
+            v
+        }
+        "C02" => {
+            let mut v: Vec<Box<dyn Scenario>> = vec![
+                Box::new(CallsScenario { minors: [20, 20, 14, 20], depth: tier.pick(12, 18) }),
+                Box::new(CallsScenario { minors: [14, 16, 20, 14], depth: tier.pick(12, 18) }),
+                Box::new(CallsScenario { minors: [16, 19, 15, 20], depth: tier.pick(11, 16) }),
+            ];
+            if tier == Tier::Thorough {
+                v.push(Box::new(CallsScenario { minors: [19, 18, 20, 16], depth: 14 }));
+                v.push(Box::new(CallsScenario { minors: [15, 20, 19, 18], depth: 14 }));
+            }
+            v
+        }
+        "C05" => {
+            let mut v: Vec<Box<dyn Scenario>> = vec![
+                Box::new(ChannelsScenario { minors: vec![20, 14, 19], caps: vec![0, 1, 4, 5, 6], grants: vec![0, 1, 5], max_channels: 1, credit_limit: 12, depth: tier.pick(9, 14) }),
+                Box::new(ChannelsScenario { minors: vec![14, 20], caps: vec![1, 5], grants: vec![1, 4], max_channels: 2, credit_limit: 7, depth: tier.pick(7, 10) }),
+                // the overflow corner
+                Box::new(ChannelsScenario { minors: vec![20, 20], caps: vec![u32::MAX - 1, u32::MAX], grants: vec![1, 2, u32::MAX], max_channels: 1, credit_limit: u32::MAX, depth: tier.pick(6, 8) }),
+            ];
+            if tier == Tier::Thorough {
+                v.push(Box::new(ChannelsScenario { minors: vec![20, 20, 20], caps: vec![0, 1, 3, 4, 5, 6], grants: vec![0, 1, 2, 5], max_channels: 1, credit_limit: 16, depth: 14 }));
+            }
+            v
+        }
+        "C10" => {
+            let mut v: Vec<Box<dyn Scenario>> = Vec::new();
+            for bs in 0..bus_states().len() {
+                v.push(Box::new(ListenerCurrentScenario { bus_state: bs, two_listeners: bs % 2 == 1, max_filters_depth: tier.pick(4, 5) }));
+            }
+            v.push(Box::new(ListenerNewScenario { filters: vec![0, 1, 7, 9], depth: tier.pick(6, 8) }));
+            v.push(Box::new(ListenerNewScenario { filters: vec![3, 4, 10], depth: tier.pick(6, 8) }));
+            if tier == Tier::Thorough {
+                v.push(Box::new(ListenerNewScenario { filters: vec![2, 5, 6, 12], depth: 8 }));
+            }
+            v
+        }
         _ => mcx::machinery(format!("unknown property {prop}")),
     }
 }
